@@ -1,6 +1,7 @@
 (** C12 — property theorems only.  Each is closed by [exact] of a lemma in Proofs*.v and followed by
     [Print Assumptions]. *)
-From V Require Import Base.Util Gql.Ast C12.Model C12.Spec C12.Proofs1 C12.Proofs2 C12.Proofs3 C12.Proofs4 C12.Proofs5.
+From V Require Import Base.Util Gql.Ast C12.Model C12.Spec C12.Proofs1 C12.Proofs2 C12.Proofs3 C12.Proofs4 C12.Proofs5 C12.Proofs6 C12.Proofs7.
+From V Require C03.Model C03.Spec.
 
 Theorem C12_to_json_roundtrip :
   forall ds, forallb wf_def ds = true -> toModel (JObj (document_fields ds)) = Some (erase_defs ds).
@@ -172,3 +173,48 @@ Theorem C12_accepted_document_denotes :
            /\ forall n, In n names <-> (reach (get_frag (od_defs d)) (fr_sel f) n /\ n <> iname (fr_name f))).
 Proof. exact accepted_document_denotes. Qed.
 Print Assumptions C12_accepted_document_denotes.
+
+Theorem C12_accepted_spreads_defined :
+  forall S D,
+  C03.Spec.schema_wf S = true -> C03.Model.check_operation_document S D = [] ->
+  spreads_defined_b (od_defs D) = true.
+Proof. exact accepted_spreads_defined. Qed.
+Print Assumptions C12_accepted_spreads_defined.
+
+Theorem C12_checked_document_denotes :
+  forall S D,
+  C03.Spec.schema_wf S = true -> C03.Model.check_operation_document S D = [] ->
+  forallb wf_def (od_defs D) = true ->
+  (exists ts, document_runtime_texts D = Ok ts /\ length ts = length (od_defs D))
+  /\ (forall o, In (DOp o) (od_defs D) ->
+       exists t names fs,
+         runtime_text (od_defs D) (DOp o) = Ok t
+         /\ read_document t = Some (erase_op o :: map erase_frag fs)
+         /\ Forall2 (fun n f => get_frag (od_defs D) n = Some f) names fs
+         /\ NoDup names
+         /\ forall n, In n names <-> reach (get_frag (od_defs D)) (op_sel o) n)
+  /\ (forall f, In (DFrag f) (od_defs D) ->
+       exists t names fs,
+         runtime_text (od_defs D) (DFrag f) = Ok t
+         /\ read_document t = Some (erase_frag f :: map erase_frag fs)
+         /\ Forall2 (fun n g => get_frag (od_defs D) n = Some g) names fs
+         /\ NoDup names
+         /\ forall n, In n names <-> (reach (get_frag (od_defs D)) (fr_sel f) n /\ n <> iname (fr_name f))).
+Proof. exact checked_document_denotes. Qed.
+Print Assumptions C12_checked_document_denotes.
+
+Theorem C12_loader_emit_js_spec :
+  forall d,
+  (exists ts, loader_emit_js d = LOk ts /\ document_runtime_texts d = Ok ts
+              /\ spreads_defined_b (od_defs d) = true)
+  \/ (exists n, loader_emit_js d = LErr (msg_fragment_not_defined n)
+               /\ spreads_defined_b (od_defs d) = false
+               /\ exists x ss, In x (od_defs d) /\ def_selset x = Some ss /\ In n (spreads_of ss)
+                               /\ get_frag (od_defs d) n = None).
+Proof. exact loader_emit_js_spec. Qed.
+Print Assumptions C12_loader_emit_js_spec.
+
+Theorem C12_loader_emit_js_never_panics :
+  forall d m, loader_emit_js d <> LPanic m /\ loader_emit_js d <> LOutOfFuel.
+Proof. exact loader_emit_js_never_panics. Qed.
+Print Assumptions C12_loader_emit_js_never_panics.
